@@ -3,19 +3,26 @@
 (* x inside/outside; the path algebra laws are invariants.                                                  *)
 EXTENDS AoefPaths, TLC, Json
 CONSTANTS MaxDepth
-VARIABLES ct, depth, name, audio, place, ph
+VARIABLES ct, depth, name, audio, place, akind, bkind, ph
 
-vars == <<ct, depth, name, audio, place, ph>>
+vars == <<ct, depth, name, audio, place, akind, bkind, ph>>
 DirParts == <<"d1", "sub dir", "ünï", "x.y">>
 Names == <<"a.wav", "with space.wav", "üñí ©.wav", "dots.in.name.wav", "..hidden.wav", "日本.WAV">>
 Sw0 == {"two_clips", "se_other_rec", "has_seq", "rec_owner"}
 Init == /\ ct \in Range(CTypes) /\ depth \in 0..MaxDepth /\ name \in DOMAIN Names
-        /\ audio \in {"none", "str", "path"} /\ place \in {"inside", "outside"} /\ ph = "in"
-Go == ph = "in" /\ ph' = "out" /\ UNCHANGED <<ct, depth, name, audio, place>>
+        /\ audio \in {"none", "str", "path"} /\ ph = "in"
+        \* outside_prefix: a sibling directory whose NAME starts with the audio directory's name (string prefix, not path prefix)
+        /\ place \in {"inside", "outside", "outside_prefix"}
+        \* the directories given as absolute or relative paths; rel_first: the load directory B is relative and equal to the
+        \* first component of the stored relative path (so B.x starts with the same component twice)
+        /\ akind \in {"abs", "rel"} /\ bkind \in {"abs", "rel", "rel_first"}
+        /\ (audio = "none" => akind = "abs" /\ bkind = "abs" /\ place = "inside")
+        /\ (place # "inside" => bkind = "abs")
+Go == ph = "in" /\ ph' = "out" /\ UNCHANGED <<ct, depth, name, audio, place, akind, bkind>>
 Next == Go
 Spec == Init /\ [][Next]_vars
 Dir == SubSeq(DirParts, 1, depth)
-Export == ph = "out" => PrintT(<<"CASE", ToJson(World(ct, Sw0) @@ [sw |-> Sw0, pattern |-> "alt", audio |-> audio, place |-> place,
+Export == ph = "out" => PrintT(<<"CASE", ToJson(World(ct, Sw0) @@ [sw |-> Sw0, pattern |-> "alt", audio |-> audio, place |-> place, akind |-> akind, bkind |-> bkind,
                                                                   dir |-> Dir, file |-> Names[name], cycles |-> 1])>>)
 \* laws of the path algebra (A = some root, x = Dir \o <<file>>)
 A0 == <<"root", "audio dir">>
